@@ -396,6 +396,20 @@ pub fn anch(a: bool) -> Anchored {
     }
 }
 
+/// What the consuming `Iterator` methods of the crate's non-overlapping
+/// iterator (and `count()` of the overlapping one) said about one search.
+#[derive(Debug, PartialEq)]
+pub struct IterDigest {
+    pub count: usize,
+    pub last: Option<M>,
+    pub nth: Option<M>,
+    pub ocount: Option<usize>,
+    pub via_for_each: Vec<M>,
+    pub direct_for_each: Vec<M>,
+    pub via_fold: Vec<M>,
+    pub hint_ok: bool,
+}
+
 /// A built searcher of any flavour.
 pub enum S {
     Top(AhoCorasick),
@@ -646,17 +660,31 @@ impl S {
     /// iterators (an iterator type may override any of them): `count()`,
     /// `last()` and `nth(k)` of the non-overlapping iterator, `count()` of the
     /// overlapping one. Only for inputs the configuration accepts.
-    pub fn iter_methods(&self, input: Input<'_>, k: usize, overlapping: bool) -> Result<(usize, Option<M>, Option<M>, Option<usize>), MatchError> {
-        let (i1, i2, i3, i4) = (input.clone(), input.clone(), input.clone(), input);
+    pub fn iter_methods(&self, input: Input<'_>, k: usize, overlapping: bool) -> Result<IterDigest, MatchError> {
+        let (i1, i2, i3, i4, i5, i6, i7) = (input.clone(), input.clone(), input.clone(), input.clone(), input.clone(), input.clone(), input);
         let count = with_low!(self, a => a.try_find_iter(i1).map(|it| it.count()), top t => t.try_find_iter(i1).map(|it| it.count()))?;
         let last = with_low!(self, a => a.try_find_iter(i2).map(|it| it.last().map(mm)), top t => t.try_find_iter(i2).map(|it| it.last().map(mm)))?;
         let nth = with_low!(self, a => a.try_find_iter(i3).map(|mut it| it.nth(k).map(mm)), top t => t.try_find_iter(i3).map(|mut it| it.nth(k).map(mm)))?;
+        let cap = i5.get_span().len() + 3;
+        let mut via_for_each: Vec<M> = vec![];
+        with_low!(self,
+            a => a.try_find_iter(i5).map(|it| it.take(cap).for_each(|m| via_for_each.push(mm(m)))),
+            top t => t.try_find_iter(i5).map(|it| it.take(cap).for_each(|m| via_for_each.push(mm(m)))))?;
+        // for_each / fold directly on the iterator (no adaptor in between)
+        let mut direct_for_each: Vec<M> = vec![];
+        with_low!(self,
+            a => a.try_find_iter(i6).map(|it| it.for_each(|m| if direct_for_each.len() < cap { direct_for_each.push(mm(m)) })),
+            top t => t.try_find_iter(i6).map(|it| it.for_each(|m| if direct_for_each.len() < cap { direct_for_each.push(mm(m)) })))?;
+        let (via_fold, hint): (Vec<M>, (usize, Option<usize>)) = with_low!(self,
+            a => a.try_find_iter(i7).map(|it| { let h = it.size_hint(); (it.fold(vec![], |mut v, m| { if v.len() < cap { v.push(mm(m)); } v }), h) }),
+            top t => t.try_find_iter(i7).map(|it| { let h = it.size_hint(); (it.fold(vec![], |mut v, m| { if v.len() < cap { v.push(mm(m)); } v }), h) }))?;
         let ocount = if overlapping {
             Some(with_low!(self, a => a.try_find_overlapping_iter(i4).map(|it| it.count()), top t => t.try_find_overlapping_iter(i4).map(|it| it.count()))?)
         } else {
             None
         };
-        Ok((count, last, nth, ocount))
+        let hint_ok = hint.0 <= count && hint.1.map_or(true, |u| count <= u);
+        Ok(IterDigest { count, last, nth, ocount, via_for_each, direct_for_each, via_fold, hint_ok })
     }
 
     pub fn patterns_len(&self) -> usize {
